@@ -539,6 +539,7 @@ static int cmd_explore(std::map<std::string, std::string> &a)
   const uint64_t base = dsim::mix64(dsim::mix64(verif_seed, hash_str(prop)), hash_str(a["scenario"]) + static_cast<uint64_t>(family) * 7919 +
                                                                                 static_cast<uint64_t>(profile) * 104729);
   FILE *hf = a.count("hashes") ? fopen(a["hashes"].c_str(), "ab") : nullptr;
+  FILE *tf = a.count("trace-hashes") ? fopen(a["trace-hashes"].c_str(), "a") : nullptr;  // determinism self-test
   const double t0 = now_s();
   uint64_t evals = 0, steps = 0, switches = 0, sw_api = 0, sim_ns = 0, spin_blocks = 0, graces = 0, uaf_notes = 0, nontrivial = 0;
   uint64_t faults[dsim::kFaultKinds] = {0};
@@ -576,6 +577,7 @@ static int cmd_explore(std::map<std::string, std::string> &a)
     strat[g_cur.cfg.strategy]++;
     for (int k = 0; k < dsim::kFaultKinds; ++k) faults[k] += r.faults[k];
     for (int k = 0; k < 64; ++k) probes[k] += dsim::probe_count(k);
+    if (tf) fprintf(tf, "%" PRIu64 " %016" PRIx64 " %016" PRIx64 " %" PRIu64 "\n", idx, g_prog.hash(), r.trace_hash, r.steps);
     const bool nt = (r.max_api_overlap >= 2 && r.switches_in_api >= 1) || r.forced_nontrivial;
     if (nt) {
       nontrivial++;
@@ -593,6 +595,7 @@ static int cmd_explore(std::map<std::string, std::string> &a)
     }
   }
   if (hf) fclose(hf);
+  if (tf) fclose(tf);
   const double wall = now_s() - t0;
   printf("SUMMARY {\"evaluations\": %" PRIu64 ", \"nontrivial\": %" PRIu64 ", \"steps\": %" PRIu64 ", \"switches\": %" PRIu64
          ", \"switches_in_api\": %" PRIu64 ", \"sim_ns\": %" PRIu64 ", \"spin_blocks\": %" PRIu64 ", \"grace_phases\": %" PRIu64
